@@ -1,7 +1,7 @@
 -------------------------- MODULE PrimitiveTrace --------------------------
 (* Conformance of phonopy's Primitive with Primitive.tla.  One event = one   *)
-(* call Primitive(supercell, inv(S).P) on the real code: ev.inp is the       *)
-(* projected input (supercell atoms in the real order), ev.result the        *)
+(* call Primitive(supercell, inv(S).P) on the real code: ev.pin is the       *)
+(* projected input (supercell atoms in the real order), ev.res the        *)
 (* projected output (p2s_map, s2p_map, p2p_map, atomic_permutations, the     *)
 (* primitive cell's own atoms), or status "error" when the code raised.      *)
 EXTENDS Primitive
@@ -10,27 +10,27 @@ CONSTANT Events
 VARIABLE ev
 tvars == <<pvars, ev>>
 
-TInit == ev \in Events /\ PInit(ev.inp)
+TInit == ev \in Events /\ PInit(ev.pin)
 TNext == PNext /\ UNCHANGED ev
 
 AtEnd == pc = "done"
-R == ev.result
+R == ev.res
 Built == AtEnd /\ R.status = "built"
 
-ImplP2S == Built => ReqP2S(ev.inp, R)
-ImplS2P == Built => ReqS2P(ev.inp, R)
-ImplPerms == Built => ReqPerms(ev.inp, R)
+ImplP2S == Built => ReqP2S(ev.pin, R)
+ImplS2P == Built => ReqS2P(ev.pin, R)
+ImplPerms == Built => ReqPerms(ev.pin, R)
 (* p2p_map inverts p2s_map *)
 ImplP2P == Built => /\ Len(R.p2p) = Len(R.p2s)
                     /\ \A i \in 1..Len(R.p2s) : R.p2p[i] = <<R.p2s[i], i>>
 (* the primitive cell's own atoms are the p2s atoms modulo the primitive lattice *)
 ImplPrimAtoms == Built => /\ Len(R.pu) = Len(R.p2s)
-                          /\ \A i \in 1..Len(R.p2s) : KeyP(ev.inp, R.pu[i]) = kP[R.p2s[i]]
+                          /\ \A i \in 1..Len(R.p2s) : KeyP(ev.pin, R.pu[i]) = kP[R.p2s[i]]
 ImplPrimLattice == Built => R.latticeOK
 ImplPrimAttributes == Built => R.attrsOK
 ImplPrimExact == Built => R.exact
-ImplAcceptsP == AtEnd => ReqAcceptsP(ev.inp, R)
-ImplRejectsP == AtEnd => ReqRejectsP(ev.inp, R)
+ImplAcceptsP == AtEnd => ReqAcceptsP(ev.pin, R)
+ImplRejectsP == AtEnd => ReqRejectsP(ev.pin, R)
 
 (* the machine itself satisfies the requirement (design-level) *)
 InvMachine == AtEnd => RequirementP(inp, result) /\ ReqAcceptsP(inp, result) /\ ReqRejectsP(inp, result)
